@@ -119,7 +119,7 @@ def gen_begin(root, t):
     except Exception:  # noqa: BLE001
         faults = {}
     gen_log(root, t, "S")
-    if faults.get(str(t)) in ("raise_before", "raise_after"):
+    if faults.get(str(t)) == "raise_before":
         gen_log(root, t, "F")
         raise RuntimeError("injected")
 
@@ -149,3 +149,9 @@ def gen_end(root, t, src, deps, pattern_files, prods):
     for nid, path in dict(prods).items():
         Path(path).write_text(str(hbody(t, src, dv, int(nid))))
     gen_log(root, t, "F")
+    try:
+        faults = json.loads((root / "faults.json").read_text())
+    except Exception:  # noqa: BLE001
+        faults = {}
+    if faults.get(str(t)) == "raise_after":
+        raise RuntimeError("injected")
